@@ -629,12 +629,67 @@ def _dummy_trace(frame, event, arg):
     return None
 
 
+def _thread_trace_hook():
+    """The trace function `threading` hands to every NEW thread (threading.settrace): process wide, and borrowed by
+    coverage.py while it measures."""
+    import threading
+    getter = getattr(threading, "gettrace", None)
+    return getter() if getter is not None else getattr(threading, "_trace_hook", None)
+
+
+def _register_coverages():
+    """Remember every coverage.Coverage object that is started in this process (the harness instruments the LIBRARY,
+    not pedal), so that one pedal lost track of can be stopped properly."""
+    import weakref
+    registry = weakref.WeakSet()
+    try:
+        import coverage
+        original = coverage.Coverage.start
+        if not getattr(original, "_verif_registering", False):
+            def start(self, *args, **kwargs):
+                registry.add(self)
+                return original(self, *args, **kwargs)
+            start._verif_registering = True
+            coverage.Coverage.start = start
+    except BaseException:       # noqa - no coverage.py: the coverage style does not work at all, nothing to stop
+        pass
+    return registry
+
+
+_COVERAGES = _register_coverages()
+
+
+def stop_leftover_coverage():
+    """Harness hygiene between histories: a coverage.py collector that pedal's coverage tracer started and never
+    stopped (it is not re-entrant: a student import under style 'coverage' overwrites the outer Coverage object)
+    would be resumed by every later measurement, on whatever thread that one runs - results would depend on the
+    order of the histories.  The leak itself is judged where it happens (Snapshot.trace)."""
+    import threading
+    try:
+        import coverage
+        from coverage.collector import Collector
+        if Collector._collectors:
+            running = [o for o in list(_COVERAGES) if getattr(o, "_started", False)]
+            for _ in range(len(running) + 1):       # innermost first: only the top of coverage's stack can be stopped
+                for cov in running:
+                    if Collector._collectors and cov._collector is Collector._collectors[-1]:
+                        cov.stop()
+            for _ in range(16):
+                if not Collector._collectors:
+                    break
+                Collector._collectors[-1].stop()
+    except BaseException:       # noqa
+        pass
+    threading.settrace(None)
+
+
 class Snapshot:
     def __init__(self):
         self.stdout = sys.stdout
         self.sleep = time.sleep
         self.modules = dict(sys.modules)
         self.trace = sys.gettrace()
+        self.thread_hook = _thread_trace_hook()
         self.builtin_keys = set(builtins.__dict__)
         self.builtin_vals = {k: builtins.__dict__.get(k) for k in BUILTIN_WATCH}
 
@@ -644,7 +699,7 @@ class Snapshot:
         bi = (self.builtin_keys == other.builtin_keys
               and all(self.builtin_vals[k] is other.builtin_vals[k] for k in BUILTIN_WATCH))
         return {"stdout": self.stdout is other.stdout, "sleep": self.sleep is other.sleep, "mods": mods,
-                "trace": self.trace is other.trace, "bi": bi}
+                "trace": self.trace is other.trace and self.thread_hook is other.thread_hook, "bi": bi}
 
 
 class _InjectedFailure(RuntimeError):
@@ -881,8 +936,62 @@ def _make_hook(sb, ctx):
     return hook, input_hook
 
 
+# the kinds of thread the GRADER (the code that calls run / call / evaluate) can find itself on; a history whose ops
+# carry "on": <kind> is executed there (absent = the main thread).  "pedal-timeout" (the grader inside pedal's own
+# timeout(), i.e. on an InterruptableThread) is a GATED kind: see sandboxexec_special.gated_histories
+GRADER_THREADS = ["thread", "pool", "dummy", "timer"]
+GRADER_THREAD_TEXT = {"thread": "a plain threading.Thread", "pool": "a concurrent.futures.ThreadPoolExecutor worker",
+                      "dummy": "a thread started with _thread.start_new_thread (a _DummyThread for threading)",
+                      "timer": "a threading.Timer", "pedal-timeout": "a thread started by pedal's own timeout()"}
+GRADER_THREAD_PATIENCE = 900       # seconds; a history that does not come back is a harness error (exit 2), not a verdict
+
+
+def on_grader_thread(kind, fn):
+    """Run fn() on a thread of kind `kind` and hand back what it returned / raise what it raised."""
+    import threading
+    box = {}
+    done = threading.Event()
+
+    def work():
+        try:
+            box["r"] = fn()
+        except BaseException as e:       # noqa - handed to the caller
+            box["e"] = e
+        finally:
+            done.set()
+    if kind == "thread":
+        threading.Thread(target=work, name="verif-grader").start()
+    elif kind == "timer":
+        threading.Timer(0, work).start()
+    elif kind == "dummy":
+        import _thread
+        _thread.start_new_thread(work, ())
+    elif kind == "pool":
+        from concurrent.futures import ThreadPoolExecutor
+        with ThreadPoolExecutor(max_workers=1) as pool:
+            pool.submit(work).result(GRADER_THREAD_PATIENCE)
+    elif kind == "pedal-timeout":
+        from pedal.sandbox.timeout import timeout
+        timeout(GRADER_THREAD_PATIENCE, work)
+    else:
+        raise ValueError("unknown grader thread kind %r" % (kind,))
+    if not done.wait(GRADER_THREAD_PATIENCE):
+        raise RuntimeError("history on grader thread %r did not finish" % kind)
+    if "e" in box:
+        raise box["e"]
+    return box["r"]
+
+
 def run_history(ops):
-    """-> list of observations (dict) - one per op (the observations of executions nested in an op: o["inner"])."""
+    """-> list of observations (dict) - one per op (the observations of executions nested in an op: o["inner"]).
+    Executed on the thread kind named by the ops' "on" field (default: the calling = main thread)."""
+    kind = ops[0].get("on") if ops else None
+    if kind:
+        return on_grader_thread(kind, lambda: _run_history(ops))
+    return _run_history(ops)
+
+
+def _run_history(ops):
     import threading
     real_stdout, real_sleep = sys.stdout, time.sleep
     old_trace = sys.gettrace()
@@ -975,6 +1084,8 @@ def run_history(ops):
         MAIN_REPORT.format = old_format
         threading.excepthook = old_excepthook
         sb.threaded = False
+        stop_leftover_coverage()
+        sys.settrace(old_trace)
     return obs
 
 
@@ -1193,6 +1304,8 @@ def where_tag(op, level):
     tag = {}
     if op.get("threaded"):
         tag["threaded"] = op["threaded"]
+    if op.get("on"):
+        tag["grader-thread"] = op["on"]
     if level:
         tag["execution"] = "nested-in-another"
     elif has_inner(op):
@@ -1205,6 +1318,8 @@ def how_text(op, level):
     if op.get("threaded"):
         bits.append({"sandbox": "sandbox.threaded = True", "param": "threaded=True passed",
                      "import": "only the imports threaded"}[op["threaded"]])
+    if op.get("on"):
+        bits.append("the grader running on " + GRADER_THREAD_TEXT.get(op["on"], op["on"]))
     if level:
         bits.append("started while another execution on the same sandbox was in progress (depth %d)" % (level + 1))
     elif has_inner(op):
